@@ -57,6 +57,13 @@ func (p *processor) ValidateObservation(
 		}
 	}
 
+	// the fee components of every observed update are dereferenced when the median is taken in Outcome
+	for chain, update := range obs.ChainFeeUpdates {
+		if update.ChainFee.ExecutionFeePriceUSD == nil || update.ChainFee.DataAvFeePriceUSD == nil {
+			return fmt.Errorf("nil fee component in chain fee update of chain %d", chain)
+		}
+	}
+
 	return nil
 }
 
